@@ -164,6 +164,12 @@ func (it *chanIter) Next(ctx context.Context) (Object, bool) {
 	}
 }
 
+// Equals is identity: the channel's own Equals takes only a channel for an
+// equal, and an iterator is equal to itself.
+func (it *chanIter) Equals(other Object) Object {
+	return NewBool(Object(it) == other)
+}
+
 func (it *chanIter) Entry() (IteratorEntry, bool) {
 	if it.last != nil {
 		return &Entry{
